@@ -118,4 +118,25 @@ CLAIMS = {
   design_ref='DESIGN.md section 4, C17',
   note='Trusted: simulators do not echo passwords. Known finding F-C17-1 (API key in transport error messages, pinned by tests).',
   technique='Coq theorem on the masking of the login URL + byte scan of all sinks over fault enumeration'),
+ 'C12': dict(
+  text='C12_mutual_exclusion: for every schedule of lock attempts, effects, exits and kills of any number of invocations at most one '
+       'process per device holds the lock and a rejected run has touched nothing; C12_lock_released_with_holder / C12_free_lock_is_acquired: '
+       'the lock goes with its holder. C12_call_order_of_the_front_ends is re-proved on every run against call sequences regenerated from '
+       'doapprove/main.go and drc/main.go (nothing effectful before the lock is taken and checked). Real processes: a holder parked by the '
+       'simulator in each phase, 2-3 contenders through both front-ends and five spellings of the device, holder released or killed, later run.',
+  design_ref='DESIGN.md section 4, C12',
+  note='Trusted: flock(2) semantics (exclusive, non-blocking, released on exit or kill) = the lock table of Lock/Model.v, validated by the '
+       'multi-process runs; the regex translator for the call order.',
+  technique='Coq invariant over all schedules + source-order translator + multi-process runs with parked holder'),
+ 'C19': dict(
+  text='Gen/NewpolicyScript.v is regenerated from bin/newpolicy.sh on every run (each simple command mapped to an abstract operation; unknown '
+       'commands break the tie) and must pass the verified checker; C19_invariant_for_all_histories_and_kill_points then gives, for every history '
+       'of compiling / non-compiling revisions and every kill position of every run: current absent or a complete directory, nothing moved into '
+       'an existing directory, numbers strictly increasing, a non-compiling commit never changes current. The real script is killed before each '
+       'of its ~90 simple commands (real git, stub compiler) for three histories, followed by an undisturbed run; two invocations at once.',
+  design_ref='DESIGN.md section 4, C19',
+  note='Trusted: git and flock(1); the regex translator; push failures not modelled. Liveness (next undisturbed run publishes the newest '
+       'compiling revision) is proved for a run that reaches the compiler (C19_undisturbed_run_publishes_partial) and checked dynamically for '
+       'all kill points (F-C19-1 fixed).',
+  technique='Translator from shell to abstract operations + verified checker (Coq) + kill-point enumeration on the real script'),
 }
